@@ -73,7 +73,11 @@ def spell_id(envs, rng, ctx, x, y, z, width, height):
     """discrete_grid_pos_to_id(x, y, width, z, height) through one of its spellings: positional, keywords, defaults for zeros, and the
     coordinates as numpy integers (what np.argwhere / array indexing hand out)."""
     import numpy as np
-    k = rng.randrange(6)
+    k = rng.randrange(7)
+    if k == 6:
+        from vlib import reps
+        ctx.count('id_deprecated_alias')
+        return reps.deprecated_call(envs.discreteGridPosToID, x, y, width, z, height)
     if k == 0 or (k >= 4 and (x, y, z) == (0, 0, 0)):
         return envs.discrete_grid_pos_to_id(x, y, width, z, height)
     if k == 1:
